@@ -51,7 +51,7 @@ def run_case(case):
     lines = case["gaf"]
     with core.workdir() as d:
         gaf_path, table = idx.materialize(d, case)
-        r = idx.build_index(gaf_path, d + "/g.gfa", d + "/out.gvi", via=case.get("via", "api"))
+        r = idx.build_index(gaf_path, d + "/g.gfa", d + "/out.gvi", via=case.get("via", "api"), stale=len(case["gaf"]) % 3 == 0)
         core.check(r[0] == "ok", "index failed: %s", r)
         with open(d + "/out.gvi", "rb") as f:
             ind = pickle.load(f)
